@@ -262,8 +262,8 @@ def replay(ctx, case):
 SUBS = [
     Sub("cmc_exhaustive", run_exhaustive, replay, quick=1, thorough=1,
         shards=14, sweep=True),
-    Sub("cmc_sampled", run_big, replay, quick=3000, thorough=100000),
+    Sub("cmc_sampled", run_big, replay, quick=3000, thorough=500000),
     Sub("routing_exhaustive", run_route_exhaustive, replay, quick=1,
         thorough=1, shards=9, sweep=True),
-    Sub("routing_sampled", run_route, replay, quick=3000, thorough=100000),
+    Sub("routing_sampled", run_route, replay, quick=3000, thorough=500000),
 ]
